@@ -560,6 +560,9 @@ func (a *MaxValueArg) Parse() error {
 type argRb struct {
 	Min, Max   bool
 	Start, End string
+	// A part that is the single keyword "max" (or "min") stands for
+	// max..max (min..min): the start is the maximum / the end is the minimum.
+	StartMax, EndMin bool
 }
 
 type RangeArgBdrySlice []argRb
@@ -590,8 +593,10 @@ func (a *RangeArg) Parse() error {
 			switch rbs[0] {
 			case "max":
 				r.Max = true
+				r.StartMax = true
 			case "min":
 				r.Min = true
+				r.EndMin = true
 			default:
 				r.Start = rbs[0]
 				r.End = rbs[0]
@@ -620,6 +625,9 @@ func (a *RangeArg) Parse() error {
 type Lb struct {
 	Min, Max   bool
 	Start, End uint64
+	// A part that is the single keyword "max" (or "min") stands for
+	// max..max (min..min): the start is the maximum / the end is the minimum.
+	StartMax, EndMin bool
 }
 
 type LengthArg struct {
@@ -650,8 +658,10 @@ func (a *LengthArg) Parse() error {
 			switch bs[0] {
 			case "max":
 				l.Max = true
+				l.StartMax = true
 			case "min":
 				l.Min = true
+				l.EndMin = true
 			default:
 				i, e := strconv.ParseUint(bs[0], 0, 64)
 				if e != nil {
